@@ -85,6 +85,56 @@ VMC_HARNESS(tim_single, "C07,C01,C02") {
   vmc::note(std::string(1, it[0].how) + it[1].how + (it[0].order < it[1].order ? " 0first" : " 1first"));
 }
 
+// three timers: due times from {+1ms, +2ms, +3ms, +3ms(tie)} chosen per timer (data choice), submitted in index order by
+// one thread, then one of them (data choice) is cancelled by another thread while the clock thread lets time pass.
+// Covers insertion at the head / in the middle / at the tail of the context's queue followed by removal of a
+// neighbour.  args: [0 schedule_at, 1 schedule_after][ms the canceller waits first]
+VMC_HARNESS(tim_three, "C07,C01,C02") {
+  static const long long kD[] = {1000000, 2000000, 3000000, 3000000};
+  bool after = vmcrt::arg(0, 0) != 0;
+  int d[3] = {vmc::choose(4), vmc::choose(4), vmc::choose(4)};
+  int victim = vmc::choose(3);
+  TItem it[3]; TClock k; kit::FreeCtl ctl[3]; inplace_stop_source src, never;
+  long long t0 = vmc::now(), stop_at = -1;
+  {
+    timed_single_thread_context ctx;
+    auto sched = ctx.get_scheduler();
+    auto base = timed_single_thread_context::clock_t::now();
+    using after_op = kit::HeapOp<decltype(schedule_after(sched, std::chrono::nanoseconds(1))), TimerRcv>;
+    using at_op = kit::HeapOp<decltype(schedule_at(sched, base)), TimerRcv>;
+    void* h[3];
+    for (int i = 0; i < 3; ++i) {
+      it[i].due = t0 + kD[d[i]];
+      TimerRcv r{&it[i], &k, &ctl[i], i == victim ? src.get_token() : never.get_token()};
+      if (after) h[i] = kit::make_heap_op(schedule_after(sched, std::chrono::nanoseconds(kD[d[i]])), std::move(r), ctl[i]);
+      else h[i] = kit::make_heap_op(schedule_at(sched, base + std::chrono::nanoseconds(kD[d[i]])), std::move(r), ctl[i]);
+    }
+    bool all_started = false;
+    int delay_ms = vmcrt::arg(1, 0);
+    std::thread stopper([&] { vmc::wait_until([&] { return all_started; }); if (delay_ms) std::this_thread::sleep_for(std::chrono::milliseconds(delay_ms)); stop_at = vmc::now(); src.request_stop(); });
+    for (int i = 0; i < 3; ++i) {
+      it[i].submit = i;
+      if (after) unifex::start(static_cast<after_op*>(h[i])->op); else unifex::start(static_cast<at_op*>(h[i])->op);
+      it[i].submitted_at = vmc::now();
+    }
+    all_started = true;
+    stopper.join();
+    vmc::wait_until([&] { return it[0].count > 0 && it[1].count > 0 && it[2].count > 0; });
+  }
+  for (int i = 0; i < 3; ++i) {
+    vmc::check(it[i].count == 1, "C07,C01", "timer-lost", "timer operation did not complete exactly once");
+    if (it[i].how == 'V') vmc::check(it[i].when >= it[i].due, "C07", "fired-early", "timer completed with value before its due time");
+    if (i != victim) vmc::check(it[i].how == 'V', "C07,C01", "timer-lost", "a timer that was not cancelled did not complete with value");
+  }
+  // prompt: done is delivered without waiting for the due time (unless the request itself came that late)
+  if (it[victim].how == 'D') vmc::check(it[victim].when < it[victim].due || it[victim].when <= stop_at, "C07", "cancel-not-prompt", "stopped timer completed with done only when its due time arrived");
+  if (!after)
+    for (int a = 0; a < 3; ++a) for (int b = 0; b < 3; ++b)
+      if (a != b && it[a].how == 'V' && it[b].how == 'V' && must_precede(it[a], it[b]))
+        vmc::check(it[a].order < it[b].order, "C07", "due-order", "timers did not complete in due-time order (ties in submission order)");
+  vmc::note(std::string(1, it[0].how) + it[1].how + it[2].how);
+}
+
 // thread_unsafe_event_loop: single logical thread, virtual clock. histories: 2 timers from the due alphabet,
 // stop of timer 0 before start / while queued / never. The operation lives in 0xAA-poisoned storage so that a read
 // of a never-initialised link faults.
